@@ -74,6 +74,15 @@ CLAIMS = {
   "not global; DefaultOptions prepends Recovery(RouteHandler) then Logger(AllHandlers).",
   "Not decided: order and once-ness of execution as observed for arbitrary configurations (user middleware may not call next).",
   "DESIGN.md section 5 C13"),
+ "C14": (
+  "path enumeration and guard-set (dominating branch facts) over the SSA of each recorder method; template check of the capability methods; ordering check of the Context helpers",
+  "Decides the accounting discipline of the response recorder on every path: each forwarding of body bytes (Write, io.WriteString, ReaderFrom.ReadFrom) adds the returned count to size on every path to "
+  "the return, only comparisons of that count with zero may skip it (never the error: the defect repaired in ReadFrom); a final status is forwarded only under size == notWritten together with size = 0, "
+  "1xx (not 101) pass through without state change; size leaves notWritten only with a forwarded header or positive count; the ReadFrom fallback copies through the recorder itself; FlushError commits "
+  "the header through the recorder in both flusher forms; the six capabilities follow the assert/delegate/ErrNotSupported template (ErrNotSupported() wraps with %w); String/Blob/Stream order "
+  "content-type, status (the code argument), body; Redirect only for 300..308.",
+  "Not decided: byte order, arbitrary underlying writers' behaviour, hijack semantics, sequences of calls as observed. Trusted: the underlying writer reports accepted byte counts.",
+  "DESIGN.md section 5 C14"),
 }
 
 NOT_APPLICABLE = {
